@@ -105,8 +105,9 @@ OutShape(tp) ==                                               \* <<rows, cols>> 
     ELSE <<tp.F, tp.T>>
 Grid(tp) == (0..(OutShape(tp)[2] - 1)) \X (0..(OutShape(tp)[1] - 1))      \* <<col, row>>: x = column, y = row
 CC == <<"clamp", "clamp">>
-\* rasterio on the mapped shape: centre rule for polygons (a centre exactly on an edge is taken as outside),
-\* lines/points and all_touched abstracted as "every touched cell"
+\* rasterio on the mapped shape: centre rule for polygons (a centre exactly on an edge is taken as outside);
+\* all_touched: every cell the closed polygon meets; lines and points: rasterio's pixel chain is NOT modelled,
+\* the model marks every cell near the mapped shape (the largest set Req allows)
 BurnOne(cs, a, r, j) ==
     LET g == cs.geoms[j]
         mp == TLCEval(MParts(cs.tpl, CC, g))
@@ -149,7 +150,7 @@ ImplRefinesReq ==
                     tt == IF LenOK(cs) THEN Tab(cs, TRUE) ELSE <<>>
                     rt == ImplRun(cs, TRUE)
                 IN  /\ \A cl \in RunClauses : RunHolds(cl, cs, res, FALSE, tp) /\ RunHolds(cl, cs, rt, TRUE, tt)
-                    /\ Superset(cs, res, rt)
+                    /\ Superset(cs, res, rt, FALSE) /\ Superset(cs, res, rt, TRUE)
                     /\ res = ImplRun(cs, FALSE)                          \* the machine and its closed form agree
 ImplOnTemplateAxes == Terminal => RunHolds("DimsAndCoordsOfTemplate", Case, res, FALSE, <<>>)     \* the clause F15 breaks, on its own line
 
@@ -176,7 +177,7 @@ Grow(b) == {<<Max(b[1] - 1, 0), b[2], b[3], b[4]>>, <<b[1], Max(b[2] - 1, 0), b[
 LawCellsMonotone == LawAt => LET cs == Case IN \A j \in 1..NG(cs) : BoxLike(cs.geoms[j]) =>
     \A rr \in RR : \A b2 \in Grow(BoxOf(cs.geoms[j])) : BoxCells(cs.tpl, rr, BoxOf(cs.geoms[j])) \subseteq BoxCells(cs.tpl, rr, b2)
 \* a cell whose centre is inside is touched; the acceptance relation is never empty
-LawInIsTouched == LawAt => LET cs == Case IN \A j \in 1..NG(cs) : \A rr \in RRFor(cs.tpl, cs.geoms[j]) :
+LawInIsTouched == LawAt => LET cs == Case IN \A j \in 1..NG(cs) : Areal(cs.geoms[j]) => \A rr \in RRFor(cs.tpl, cs.geoms[j]) :
     LET mp == TLCEval(MParts(cs.tpl, rr, cs.geoms[j])) IN
     \A cell \in CellsOf(cs.tpl) : StatusM(mp, Areal(cs.geoms[j]), FALSE, cell) = "in" => Touched(mp, cell)
 LawSatisfiable == LawAt => LET cs == Case IN \A a \in BOOLEAN : LET tb == Tab(cs, a) IN
